@@ -503,6 +503,24 @@ Section DecodeAndCompress.
         extract_text_chunks pages' nums = extract_text_chunks pages nums /\
         extract_text pages' nums = extract_text pages nums.
   Proof. exact extract_same_after_compress_save_load_dom. Qed.
+
+  (* ANY operations written with Content::encode that are plain operations of C14's domain ([plain_ok]: operator over the
+     operator alphabet and not null / true / false, operands direct objects other than references nested at most MAX_NESTING,
+     BI not alone) -- any operators, any order, any number of font selections: after compress + save + load extract_text
+     returns what it makes of those operations ([norm_pair]: reals in C14's normal form) *)
+  Theorem C16_extract_any_written_after_compress_save_load :
+    forall inflate lzw deflate, implements_inflate inflate ->
+    forall nocomp xt d fuel pid fname font ops nums,
+      savable d -> known_deep d = false -> unreferenced xt d -> content_normal fuel (d_objects d) pid ->
+      small_file xt (compress_doc deflate nocomp d) ->
+      zlib_compressor deflate (d_objects d) ->
+      page_written (stream_decomp inflate lzw) fuel (d_objects d) pid fname font ops -> Forall plain_ok ops ->
+      exists d' p',
+        load (so_bytes (save xt (compress_doc deflate nocomp d))) = LOk d' (xtype_of xt) /\
+        doc_page (stream_decomp inflate lzw) content_decode fuel (d_objects d') pid = Some p' /\
+        extract_text_chunks [p'] nums = extract_text_chunks [{| p_fonts := [(fname, font)]; p_ops := map norm_pair ops |}] nums /\
+        extract_text [p'] nums = extract_text [{| p_fonts := [(fname, font)]; p_ops := map norm_pair ops |}] nums.
+  Proof. exact extract_any_written_after_compress_save_load_dom. Qed.
 End DecodeAndCompress.
 
 Print Assumptions C16_decode_written_ops.
@@ -516,6 +534,7 @@ Print Assumptions C16_extract_blocks_after_compress_save_load.
 Print Assumptions C16_extract_after_compress_save_load_gallina.
 Print Assumptions C16_extract_after_compress_save_load_stored.
 Print Assumptions C16_extract_same_after_compress_save_load.
+Print Assumptions C16_extract_any_written_after_compress_save_load.
 
 (* non-vacuity of (3''): a five-object document whose page content is Content::encode of text-showing operations (187
    bytes); a compressor that answers that content with a genuine deflate stream (57 bytes, fixed Huffman codes, written by
